@@ -87,7 +87,8 @@ def main():
             return 3
     os.makedirs(dst, exist_ok=True)
     for f in ('patch.diff', 'demo.rs'):
-        shutil.copy(os.path.join(seed, f), os.path.join(dst, f))
+        if os.path.abspath(os.path.join(seed, f)) != os.path.abspath(os.path.join(dst, f)):
+            shutil.copy(os.path.join(seed, f), os.path.join(dst, f))
     runs = meta.get('check_runs', [])
     if '--confirm-only' in sys.argv:
         json.dump(meta, open(os.path.join(dst, 'meta.json'), 'w'), indent=1, ensure_ascii=False)
